@@ -124,3 +124,299 @@ def rule_ownership(ctx):
             fw = [t for _, t in owned if "AAFramework<" in t]
             r.check(len(fw) == 1, path, "frameworks-owned=%d" % len(fw), "%s owns exactly one AAFramework" % path.rsplit("::", 1)[-1], "%s owns %d frameworks" % (path, len(fw)))
     r.floor(n, 12, "static and dynamic solver types")
+
+
+# ------------------------------------------------------------------------------------------
+# literal provenance: arguments turned into SAT literals belong to the framework that was encoded
+
+ENCODE = r"encodings::specs::ConstraintsEncoder::(encode_constraints|encode_constraints_and_range)$"
+A2L = r"encodings::specs::ConstraintsEncoder::arg_to_lit$"
+A2E = r"encodings::specs::ConstraintsEncoder::assignment_to_extension$"
+_ARG_TRANSPARENT = (
+    "core::clone::Clone::clone",
+    "core::option::Option::unwrap",
+    "core::option::Option::expect",
+    "core::result::Result::unwrap",
+    "core::result::Result::expect",
+    "core::result::Result::ok",
+    "core::option::Option::as_ref",
+    "core::ops::deref::Deref::deref",
+    "core::borrow::Borrow::borrow",
+    "core::hint::must_use",
+    "core::option::Option::copied",
+    "core::option::Option::cloned",
+)
+_ITER_CONSUMERS = tags.MAPPING + tags.FILTERING + (
+    "core::iter::traits::iterator::Iterator::for_each",
+    "core::iter::traits::iterator::Iterator::any",
+    "core::iter::traits::iterator::Iterator::all",
+    "core::iter::traits::iterator::Iterator::find",
+    "core::iter::traits::iterator::Iterator::position",
+    "core::iter::traits::iterator::Iterator::fold",
+    "core::iter::traits::iterator::Iterator::try_for_each",
+)
+
+
+def _fw_identity(prog, body, op, depth=0):
+    """identities of the AAFramework an operand (owned, & or &&) denotes"""
+    out = set()
+    if depth > 6:
+        return {"?depth"}
+    for o in origins(body, op, transparent=("core::ops::deref::Deref::deref", "core::clone::Clone::clone", "core::borrow::Borrow::borrow")):
+        if o.kind == "param":
+            fn = prog.enclosing_fn(body)
+            if o.data == 1 and o.fields and body is fn and fn.impl:
+                out.add("self." + str(o.fields[0]))
+            else:
+                out.add("%s:param#%d" % (body.id, o.data))
+        elif o.kind == "upvar":
+            par, cop = tags._closure_capture_operand(prog, body, o.data)
+            if cop is None:
+                out.add("?upvar")
+                continue
+            sub = _fw_identity(prog, par, cop, depth + 1)
+            if o.fields:
+                # a captured `self`, the framework is a field of it
+                sub = {("self." + str(o.fields[0])) if x.endswith(":param#1") else x for x in sub}
+            out |= sub
+        elif o.kind == "call":
+            out.add("%s:call@bb%d:%s" % (body.id, o.site.bb, callee_decl(o.data).rsplit("::", 1)[-1]))
+        elif o.kind in ("undef", "partial"):
+            continue
+        else:
+            out.add("?" + o.kind)
+    return out
+
+
+def _elements_fw(prog, body, op, depth=0):
+    """frameworks the `&Argument<T>` elements of an iterable / collection operand belong to"""
+    out = set()
+    if depth > 8:
+        return {"?depth"}
+    for o in origins(body, op, transparent=tags.ELEMENT_PRESERVING + tuple(x for x in tags.FILTERING if not x.endswith("filter_map")) + ("core::iter::traits::iterator::Iterator::enumerate", "core::iter::traits::iterator::Iterator::peekable")):
+        if o.kind == "param":
+            out.add("%s:param#%d" % (body.id, o.data))
+        elif o.kind == "upvar":
+            par, cop = tags._closure_capture_operand(prog, body, o.data)
+            out |= _elements_fw(prog, par, cop, depth + 1) if cop is not None else {"?upvar"}
+        elif o.kind == "call":
+            c = o.data
+            d = callee_decl(c)
+            if d in tags.MAPPING:
+                clos = [prog.by_target[body.target].get(x) or prog.lib(x) for x in (c.get("fn_args") or [])]
+                clos = [x for x in clos if x is not None]
+                if not clos:
+                    out.add("?map")
+                for clo in clos:
+                    out |= _argument_fw(prog, clo, {"c": {"l": 0, "p": []}}, depth + 1)
+            elif callee_matches(c, r"ArgumentSet::iter$|AAFramework::argument_set$"):
+                out |= _fw_identity(prog, body, o.site.node["args"][0], depth + 1) if callee_matches(c, r"AAFramework::argument_set$") else _elements_fw(prog, body, o.site.node["args"][0], depth + 1)
+            elif d in ("alloc::vec::Vec::new", "alloc::vec::Vec::with_capacity"):
+                for s in body.mut_call_defs.get(o.site.node["dst"]["l"], []):
+                    dd = callee_decl(callee_of(s))
+                    if dd == "alloc::vec::Vec::push":
+                        out |= _argument_fw(prog, body, s.node["args"][1], depth + 1)
+                    elif dd in ("alloc::vec::Vec::append", "core::iter::traits::collect::Extend::extend", "alloc::vec::Vec::extend_from_slice"):
+                        out |= _elements_fw(prog, body, s.node["args"][1], depth + 1)
+            else:
+                out.add("?call:" + d.rsplit("::", 1)[-1])
+        elif o.kind in ("undef", "partial", "const"):
+            continue
+        else:
+            out.add("?" + o.kind)
+    return out
+
+
+def _argument_fw(prog, body, op, depth=0):
+    """frameworks a single `&Argument<T>` (or Option / Result of it) operand belongs to"""
+    out = set()
+    if depth > 8:
+        return {"?depth"}
+    for o in origins(body, op, transparent=_ARG_TRANSPARENT):
+        if o.kind == "call":
+            c = o.data
+            if callee_matches(c, r"ArgumentSet::get_argument(_by_id)?$"):
+                for oo in origins(body, o.site.node["args"][0], transparent=("core::ops::deref::Deref::deref",)):
+                    if oo.kind == "call" and callee_matches(oo.data, r"AAFramework::argument_set$"):
+                        out |= _fw_identity(prog, body, oo.site.node["args"][0], depth + 1)
+                    else:
+                        out.add("?argset")
+            elif callee_decl(c) == "core::iter::traits::iterator::Iterator::next":
+                out |= _elements_fw(prog, body, o.site.node["args"][0], depth + 1)
+            else:
+                out.add("?call:" + callee_decl(c).rsplit("::", 1)[-1])
+        elif o.kind == "param":
+            if body.kind == "closure" and o.data >= 2:
+                # the element parameter of a closure handed to an iterator adaptor of the parent
+                par = prog.by_target[body.target].get(body.parent["direct"]) if body.parent else None
+                found = False
+                if par is not None:
+                    for ps in par.calls():
+                        pc = callee_of(ps)
+                        if pc and body.path in (pc.get("fn_args") or []) and callee_decl(pc) in _ITER_CONSUMERS:
+                            out |= _elements_fw(prog, par, ps.node["args"][0], depth + 1)
+                            found = True
+                if not found:
+                    out.add("?closure-param")
+            else:
+                out.add("%s:param#%d" % (body.id, o.data))
+        elif o.kind == "upvar":
+            par, cop = tags._closure_capture_operand(prog, body, o.data)
+            out |= _argument_fw(prog, par, cop, depth + 1) if cop is not None else {"?upvar"}
+        elif o.kind == "agg" and o.data.get("variant") == "Some":
+            out |= _argument_fw(prog, body, o.site.node["rv"]["ops"][0], depth + 1)
+        elif o.kind in ("undef", "partial", "const"):
+            continue
+        elif o.kind == "agg" and o.data.get("variant") == "None":
+            continue
+        else:
+            out.add("?" + o.kind)
+    return out
+
+
+def rule_literal_provenance(ctx):
+    prog = ctx.prog
+    r = ctx.rule(
+        "literal-provenance",
+        "in a static solver, an argument handed to the encoder's id-based `arg_to_lit`, and the framework handed to `assignment_to_extension`, "
+        "belong to the framework the encoder encoded in that function (`encode_constraints*`): a component's SAT variables are numbered by "
+        "component-local ids, so the caller's arguments must first be looked up by label in the component",
+    )
+    n = n_res = 0
+    fns = [b for b in prog.lib_bodies() if b.kind != "closure" and (b.path.startswith("solvers::") or "<solvers::" in b.path.split(" as ")[0])]
+    for fn in sorted(fns, key=lambda b: b.id):
+        bodies = prog.with_closures(fn)
+        enc = set()
+        for b in bodies:
+            for s in b.calls():
+                if callee_matches(callee_of(s), ENCODE):
+                    enc |= _fw_identity(prog, b, s.node["args"][1])
+        for b in bodies:
+            k = 0
+            for s in b.calls():
+                c = callee_of(s)
+                if callee_matches(c, A2L):
+                    got = _argument_fw(prog, b, s.node["args"][1])
+                    what = "arg_to_lit"
+                elif callee_matches(c, A2E):
+                    got = _fw_identity(prog, b, s.node["args"][2])
+                    what = "assignment_to_extension"
+                else:
+                    continue
+                n += 1
+                anchor = "%s|%s#%d" % (b.id, what, k)
+                k += 1
+                unknown = {x for x in got if x.startswith("?")}
+                if not enc:
+                    r.ok(anchor, "no encoding call in this function (helper): argument from %s" % sorted(got), s.loc())
+                    continue
+                if unknown or any(x.startswith("?") for x in enc):
+                    r.ok(anchor, "provenance not resolved (%s): not decided here" % sorted(unknown or enc), s.loc())
+                    continue
+                n_res += 1
+                r.check(
+                    got <= enc,
+                    anchor,
+                    "foreign-framework",
+                    "argument/framework from %s = the encoded framework" % sorted(got),
+                    "%s is applied to %s but the encoder encoded %s in this function: literals are numbered by the ids of the encoded framework" % (what, sorted(got - enc), sorted(enc)),
+                    s.loc(),
+                )
+    r.floor(n, 12, "arg_to_lit / assignment_to_extension sites in the static solvers")
+    r.floor(n_res, 9, "sites whose provenance is resolved")
+
+
+# ------------------------------------------------------------------------------------------
+# a SAT solver holds the clauses of one encoding
+
+_SOLVER_TRANSPARENT = (
+    "core::ops::deref::Deref::deref",
+    "core::ops::deref::DerefMut::deref_mut",
+    "core::convert::AsMut::as_mut",
+    "core::convert::AsRef::as_ref",
+    "core::cell::RefCell::borrow_mut",
+    "core::cell::RefCell::borrow",
+    "core::cell::RefCell::new",
+    "alloc::rc::Rc::new",
+    "alloc::rc::Rc::clone",
+    "core::clone::Clone::clone",
+    "core::borrow::BorrowMut::borrow_mut",
+)
+
+
+def _solver_creations(prog, body, op, depth=0):
+    """creation sites of the SAT solver object behind an operand: [('site', body, Site)] / [('passed-in', ..)]"""
+    out = []
+    if depth > 5:
+        return [("?depth", body, None)]
+    for o in origins(body, op, transparent=_SOLVER_TRANSPARENT):
+        if o.kind == "call":
+            out.append(("site", body, o.site))
+        elif o.kind == "param":
+            out.append(("passed-in", body, None))
+        elif o.kind == "upvar":
+            par, cop = tags._closure_capture_operand(prog, body, o.data)
+            out += _solver_creations(prog, par, cop, depth + 1) if cop is not None else [("?upvar", body, None)]
+        elif o.kind in ("undef", "partial"):
+            continue
+        else:
+            out.append(("?" + o.kind, body, None))
+    return out
+
+
+def rule_fresh_solver_per_encoding(ctx):
+    prog = ctx.prog
+    r = ctx.rule(
+        "fresh-solver-per-encoding",
+        "in the static solvers, the SAT solver handed to `encode_constraints*` is created (by the factory) inside every loop that contains the "
+        "encoding call, and no two encoding calls share one created solver: each component / query is encoded with variables 1..n into an empty "
+        "solver, so clauses of another component (numbered with the same variables) can never constrain it",
+    )
+    n = n_local = 0
+    fns = [b for b in prog.lib_bodies() if b.kind != "closure" and (b.path.startswith("solvers::") or "<solvers::" in b.path.split(" as ")[0])]
+    for fn in sorted(fns, key=lambda b: b.id):
+        by_creation = {}
+        for b in prog.with_closures(fn):
+            k = 0
+            for s in b.calls():
+                if not callee_matches(callee_of(s), ENCODE):
+                    continue
+                n += 1
+                anchor = "%s|encode#%d" % (b.id, k)
+                k += 1
+                cr = _solver_creations(prog, b, s.node["args"][2])
+                kinds = {x[0] for x in cr}
+                if kinds == {"passed-in"}:
+                    r.ok(anchor, "solver passed in by the caller (helper)", s.loc())
+                    continue
+                if kinds != {"site"}:
+                    r.ok(anchor, "solver origin not resolved (%s): not decided here" % sorted(kinds), s.loc())
+                    continue
+                n_local += 1
+                bad = None
+                for _, cb, cs in cr:
+                    by_creation.setdefault((cb.id, cs.bb), []).append(s)
+                    if cb is not b:
+                        bad = "created in %s and encoded inside a closure" % cb.id if any(True for _ in [0]) and b.kind == "closure" and _closure_called_in_loop(prog, b) else bad
+                        continue
+                    for head, blocks in b.loops():
+                        if s.bb in blocks and cs.bb not in blocks:
+                            bad = "created at %s outside the loop at bb%d that contains the encoding call" % (cs.loc(), head)
+                r.check(bad is None, anchor, "solver-outlives-iteration", "the solver is created in the same loop iteration as the encoding", "the SAT solver is %s: the clauses of earlier iterations stay in it" % bad, s.loc())
+        for (cid, cbb), sites in sorted(by_creation.items()):
+            if len({(x.body.id, x.bb) for x in sites}) > 1:
+                r.violation("%s|creation@bb%d" % (cid, cbb), "shared-solver", "%d encoding calls (%s) fill the solver created in %s bb%d" % (len(sites), [x.loc() for x in sites], cid, cbb), sites[0].loc())
+    r.floor(n, 9, "encode_constraints* call sites in the static solvers")
+    r.floor(n_local, 7, "encoding calls whose solver is created in the same function")
+
+
+def _closure_called_in_loop(prog, clo):
+    """is the closure handed to an iterator consumer (so its body runs once per element)?"""
+    par = prog.by_target[clo.target].get(clo.parent["direct"]) if clo.parent else None
+    if par is None:
+        return True
+    for ps in par.calls():
+        pc = callee_of(ps)
+        if pc and clo.path in (pc.get("fn_args") or []) and callee_decl(pc).startswith("core::iter::"):
+            return True
+    return False
